@@ -1667,7 +1667,7 @@ func (p *wat2cWorker) buildFunc_ins(w io.Writer, fn *ast.Func, stk *valueTypeSta
 		sp0 := stk.Pop(token.I32)
 		sp1 := stk.Pop(token.I32)
 		ret0 := stk.Push(token.I32)
-		fmt.Fprintf(w, "%sR%d.i32 = R%d.i32 + R%d.i32; // %s\n",
+		fmt.Fprintf(w, "%sR%d.i32 = (int32_t)((uint32_t)(R%d.i32) + (uint32_t)(R%d.i32)); // %s\n",
 			indent, ret0, sp1, sp0,
 			insString(i),
 		)
@@ -1675,7 +1675,7 @@ func (p *wat2cWorker) buildFunc_ins(w io.Writer, fn *ast.Func, stk *valueTypeSta
 		sp0 := stk.Pop(token.I32)
 		sp1 := stk.Pop(token.I32)
 		ret0 := stk.Push(token.I32)
-		fmt.Fprintf(w, "%sR%d.i32 = R%d.i32 - R%d.i32; // %s\n",
+		fmt.Fprintf(w, "%sR%d.i32 = (int32_t)((uint32_t)(R%d.i32) - (uint32_t)(R%d.i32)); // %s\n",
 			indent, ret0, sp1, sp0,
 			insString(i),
 		)
@@ -1683,7 +1683,7 @@ func (p *wat2cWorker) buildFunc_ins(w io.Writer, fn *ast.Func, stk *valueTypeSta
 		sp0 := stk.Pop(token.I32)
 		sp1 := stk.Pop(token.I32)
 		ret0 := stk.Push(token.I32)
-		fmt.Fprintf(w, "%sR%d.i32 = R%d.i32 * R%d.i32; // %s\n",
+		fmt.Fprintf(w, "%sR%d.i32 = (int32_t)((uint32_t)(R%d.i32) * (uint32_t)(R%d.i32)); // %s\n",
 			indent, ret0, sp1, sp0,
 			insString(i),
 		)
@@ -1808,7 +1808,7 @@ func (p *wat2cWorker) buildFunc_ins(w io.Writer, fn *ast.Func, stk *valueTypeSta
 		sp0 := stk.Pop(token.I64)
 		sp1 := stk.Pop(token.I64)
 		ret0 := stk.Push(token.I64)
-		fmt.Fprintf(w, "%sR%d.i64 = R%d.i64 + R%d.i64; // %s\n",
+		fmt.Fprintf(w, "%sR%d.i64 = (int64_t)((uint64_t)(R%d.i64) + (uint64_t)(R%d.i64)); // %s\n",
 			indent, ret0, sp1, sp0,
 			insString(i),
 		)
@@ -1816,7 +1816,7 @@ func (p *wat2cWorker) buildFunc_ins(w io.Writer, fn *ast.Func, stk *valueTypeSta
 		sp0 := stk.Pop(token.I64)
 		sp1 := stk.Pop(token.I64)
 		ret0 := stk.Push(token.I64)
-		fmt.Fprintf(w, "%sR%d.i64 = R%d.i64 - R%d.i64; // %s\n",
+		fmt.Fprintf(w, "%sR%d.i64 = (int64_t)((uint64_t)(R%d.i64) - (uint64_t)(R%d.i64)); // %s\n",
 			indent, ret0, sp1, sp0,
 			insString(i),
 		)
@@ -1824,7 +1824,7 @@ func (p *wat2cWorker) buildFunc_ins(w io.Writer, fn *ast.Func, stk *valueTypeSta
 		sp0 := stk.Pop(token.I64)
 		sp1 := stk.Pop(token.I64)
 		ret0 := stk.Push(token.I64)
-		fmt.Fprintf(w, "%sR%d.i64 = R%d.i64 * R%d.i64; // %s\n",
+		fmt.Fprintf(w, "%sR%d.i64 = (int64_t)((uint64_t)(R%d.i64) * (uint64_t)(R%d.i64)); // %s\n",
 			indent, ret0, sp1, sp0,
 			insString(i),
 		)
@@ -1888,7 +1888,7 @@ func (p *wat2cWorker) buildFunc_ins(w io.Writer, fn *ast.Func, stk *valueTypeSta
 		sp0 := stk.Pop(token.I64)
 		sp1 := stk.Pop(token.I64)
 		ret0 := stk.Push(token.I64)
-		fmt.Fprintf(w, "%sR%d.i64 = R%d.i64 << (((uint64_t)R%d.i64)&63); // %s\n",
+		fmt.Fprintf(w, "%sR%d.i64 = (int64_t)((uint64_t)(R%d.i64) << (((uint64_t)R%d.i64)&63)); // %s\n",
 			indent, ret0, sp1, sp0,
 			insString(i),
 		)
